@@ -136,6 +136,12 @@ class Builder:
             return pt.Addr(n[1])
         if t == "msig":
             return pt.MethodSignature(n[1])
+        if t == "tmpli":
+            return pt.Tmpl.Int(n[1])
+        if t == "tmplb":
+            return pt.Tmpl.Bytes(n[1])
+        if t == "tmpla":
+            return pt.Tmpl.Addr(n[1])
         if t == "enum":
             cls, mem = n[1].split(".")
             return getattr(getattr(pt, cls), mem)
